@@ -45,6 +45,7 @@ func checkC18(c *Ctx, r *Report) {
 	labelRoomExact(c, r, "C18.R3.label-room", "Sign, whose buffer has no slack, fails with 'buffer size too small' for a root-zone signer on a message compression does not shrink")
 	r.rule("C18.R2.fresh-hash", 1, "hashFromAlgorithm returns a hash state of its own for every call")
 	freshHash(c, r, "C18.R2.fresh-hash")
+	keyScratchSize(c, r, "C18.R3.key-scratch")
 }
 
 func c18R1(c *Ctx, r *Report) {
